@@ -301,6 +301,7 @@ func (h *Hist) scan(faults map[int]bool, failDesc map[string]bool) (string, erro
 		ppods = append(ppods, protoPod(p))
 	}
 
+	conflict := len(faults) > 0 && h.r.chance(35)
 	var pre []preLock
 	twinMode := ""
 	if h.tw != nil {
@@ -317,6 +318,7 @@ func (h *Hist) scan(faults map[int]bool, failDesc map[string]bool) (string, erro
 	for k, v := range failDesc {
 		h.rec.FailDesc[k] = v
 	}
+	h.rec.Conflict = conflict
 	outcome := protect(func() error { return h.ctl.RunOnce() })
 	if time.Now().Unix() != sec {
 		// the scan straddled a second boundary (slow scans: fleet waits, rebuild sleeps). That only matters
@@ -336,7 +338,7 @@ func (h *Hist) scan(faults map[int]bool, failDesc map[string]bool) (string, erro
 	var twin interface{}
 	if h.tw != nil {
 		t := h.tw.t
-		if d := h.twinRun(sec, frozen, faults, failDesc, outcome, pre, twinMode); len(d) > 0 {
+		if d := h.twinRun(sec, frozen, faults, failDesc, outcome, pre, twinMode, conflict); len(d) > 0 {
 			twin = map[string]interface{}{"t": h.cfgs[t].Name, "mode": twinMode, "diffs": d}
 		}
 	}
